@@ -962,10 +962,6 @@ fn iterate_over_extension_header<MHEM: MandatoryHeaderExtensionManager>(
     let mut extensions: Vec<Extension> = vec![];
     let pdu_len = pdu.len();
 
-    if pdu_len < PROTOCOL_LEN {
-        return Err(ExtensionHeaderError::BufferTooSmall);
-    }
-
     let mut protocol_type: u16 = first_ext_id;
 
     while protocol_type < SECOND_RANGE_PTYPE {
